@@ -180,4 +180,230 @@ def run (tbl : List MethodRec) (O : Oracles) (c : ClassOpts) (fields : List (Str
     let t := run tbl O c fields r.1 rest
     (t.1, r.2 :: t.2)
 
+/-! ### nested wrappers bound to their parent (the proposed repair of `unvalidated:nested-*`)
+
+  `bound = false` is the code as it is today (`nestedStep`: the nested wrapper belongs to the scratch
+  structure its parent was validated on).  `bound = true` is the code after
+  proposed_fixes/C03-nested-wrapper-binding.diff: the mutated copy of the element replaces the element
+  in a copy of the parent's payload, and that goes through the parent's validated assignment; the
+  nested wrapper reads immutability from the real owner.  Which of the two the working tree
+  implements is probed by extract/wrappers.py (`Generated.nestedBound`). -/
+
+def nestedBoundStep (O : Oracles) (c : ClassOpts) (fields : List (String × FieldDecl)) (s : Attrs)
+    (f : String) (k : PyVal) (kind : String) (r : MethodRec) (m : NOp) (cur elem : PyVal) :
+    Attrs × Outcome :=
+  if r.guarded && (c.immutable || c.immFields.contains f) then (s, .err .valueErr)
+  else match applyNative kind m elem with
+    | .error e => (s, .err (MErr.ofNErr e))
+    | .ok new =>
+      if r.validated then
+        (if c.immFields.contains f then (s, .err .valueErr)
+         else setattrStep O c fields s f (setElemAt cur k new))
+      else if !r.overridden || r.superCall then (assocSet f (setElemAt cur k new) s, .ok)
+      else (s, .ok)
+
+/-- `Structure.__delitem__` when it runs the class's `__validate__` hook after the deletion and restores
+    the instance when the hook raises (`dh = true`: proposed_fixes/C03-delitem-runs-hook.diff; today
+    `dh = false`: no hook on deletion).  Probed from the working tree (`Generated.delitemHook`). -/
+def delitemStepH (dh : Bool) (O : Oracles) (c : ClassOpts) (s : Attrs) (f : String) : Attrs × Outcome :=
+  if dh then
+    (match delitemStep c s f with
+      | (s', .ok) => if O.hookOk s' then (s', .ok) else (s, .err .valueErr)
+      | r => r)
+  else delitemStep c s f
+
+def stepB (bound dh : Bool) (tbl : List MethodRec) (O : Oracles) (c : ClassOpts)
+    (fields : List (String × FieldDecl)) (s : Attrs) (op : Op) : Attrs × Outcome :=
+  match bound, op with
+  | true, .callNested f k m =>
+    (match lookup f fields, lookup f s with
+    | some fd, some cur =>
+      (match elemDecl fd k, elemAt cur k with
+        | some ed, some elem =>
+          (match wrapperKind ed with
+            | none => (s, .err (.other "AttributeError"))
+            | some kind => match findRec tbl kind m.name with
+              | none => (s, .err (.other "AttributeError"))
+              | some r => nestedBoundStep O c fields s f k kind r m cur elem)
+        | _, _ => (s, .err (match cur with | .dict _ => .keyErr | _ => .indexErr)))
+    | _, _ => (s, .err (.other "AttributeError")))
+  | _, .delitem f => delitemStepH dh O c s f
+  | _, op => step tbl O c fields s op
+
+/-! ### wrapper references kept across operations (stale wrappers)
+
+  `w = x.f` hands out the wrapper object itself; the caller may keep it while the field is
+  re-assigned (every validated mutator re-assigns: the instance then holds a NEW wrapper) and call a
+  mutator on it later.  A reference is the field it is bound to, its native kind and its own payload.
+  A mutator called on it works on the reference's payload: guard, native call on a copy, validated
+  assignment of that copy to the field of the instance (whatever the field holds by then is
+  replaced); rows with a `super()` call then also mutate the reference's own payload. -/
+
+structure WRef where
+  field : String
+  kind : String
+  payload : PyVal
+  /-- identity of the wrapper object: two references taken while the field was not re-assigned are
+      the same object -/
+  obj : Nat
+deriving Repr, Inhabited
+
+inductive ROp where
+  | plain (op : Op)
+  /-- `w_i = x.f` (appended to the list of references) -/
+  | take (f : String)
+  /-- `w_i.<m>(args)` -/
+  | callRef (i : Nat) (m : NOp)
+  /-- `x.f = w_i`: a kept wrapper object (whatever it holds by now) is assigned to a field -/
+  | assignRef (f : String) (i : Nat)
+deriving Repr, Inhabited
+
+structure MState where
+  attrs : Attrs
+  refs : List WRef := []
+  /-- the identity of the wrapper object the instance currently holds in a field, once somebody took
+      a reference to it (dropped when the field is re-assigned: the instance then holds a new object) -/
+  cur : List (String × Nat) := []
+  next : Nat := 0
+deriving Repr, Inhabited
+
+/-- an object was mutated in place: every reference to it sees the new content -/
+def updObj (refs : List WRef) (o : Nat) (p : PyVal) : List WRef :=
+  refs.map (fun w => if w.obj == o then { w with payload := p } else w)
+
+def unlive (f : String) (cur : List (String × Nat)) : List (String × Nat) :=
+  cur.filter (fun p => p.1 != f)
+
+/-- content of the wrapper object currently held in `f` after a successful `x.f.<m>(…)`, when the
+    table row also applies the native mutator to that object itself (`super()` call / inherited) -/
+def inPlaceNew (tbl : List MethodRec) (O : Oracles) (fields : List (String × FieldDecl)) (attrs : Attrs)
+    (f : String) (m : NOp) : Option PyVal :=
+  match lookup f fields, lookup f attrs with
+  | some fd, some cur =>
+    (match wrapperKindAt O fd cur with
+      | some kind => (match findRec tbl kind m.name with
+        | some r =>
+          if !r.overridden || r.superCall then
+            (match applyNative kind m cur with | .ok new => some new | .error _ => none)
+          else none
+        | none => none)
+      | none => none)
+  | _, _ => none
+
+/-- the same for a nested call under the parent binding: the (now replaced) parent object holds the
+    child object the native mutator was also applied to -/
+def nestedInPlaceNew (tbl : List MethodRec) (fields : List (String × FieldDecl)) (attrs : Attrs)
+    (f : String) (k : PyVal) (m : NOp) : Option PyVal :=
+  match lookup f fields, lookup f attrs with
+  | some fd, some cur =>
+    (match elemDecl fd k, elemAt cur k with
+      | some ed, some elem => (match wrapperKind ed with
+        | some kind => (match findRec tbl kind m.name with
+          | some r =>
+            if !r.overridden || r.superCall then
+              (match applyNative kind m elem with | .ok new => some (setElemAt cur k new) | .error _ => none)
+            else none
+          | none => none)
+        | none => none)
+      | _, _ => none)
+  | _, _ => none
+
+/-- what a successful plain operation does to the kept references and to the identity table -/
+def afterPlain (bound : Bool) (tbl : List MethodRec) (O : Oracles) (c : ClassOpts)
+    (fields : List (String × FieldDecl)) (st : MState) (op : Op) (attrs' : Attrs) :
+    List WRef × List (String × Nat) :=
+  match op with
+  | .setattr f v =>
+    if (lookup f fields).isSome && !(v.isNone && c.ignoreNone && !c.required.contains f)
+    then (st.refs, unlive f st.cur) else (st.refs, st.cur)
+  | .delitem f => (st.refs, unlive f st.cur)
+  | .call f m =>
+    ((match lookup f st.cur, inPlaceNew tbl O fields st.attrs f m with
+      | some o, some new => updObj st.refs o new
+      | _, _ => st.refs), unlive f st.cur)
+  | .callNested f k m =>
+    if bound then
+      ((match lookup f st.cur, nestedInPlaceNew tbl fields st.attrs f k m with
+        | some o, some new => updObj st.refs o new
+        | _, _ => st.refs), if c.immutable then st.cur else unlive f st.cur)
+    else
+      -- scratch-bound: the nested object is mutated in place; the parent object stays the same
+      ((match lookup f st.cur, lookup f attrs' with
+        | some o, some v => updObj st.refs o v
+        | _, _ => st.refs), st.cur)
+
+/-- `Structure.__bool__`: some attribute holds a value -/
+def instTruthy (attrs : Attrs) : Bool := attrs.any (fun p => !p.2.isNone)
+
+/-- a mutator called on a kept reference: as `callStep` on the reference's payload, except that a row
+    whose re-assignment is conditional on the instance's truth value skips it on a falsy instance
+    (guard and native errors first; the update is silently lost) -/
+def refCallStep (O : Oracles) (c : ClassOpts) (fields : List (String × FieldDecl)) (s : Attrs)
+    (f : String) (kind : String) (r : MethodRec) (m : NOp) (payload : PyVal) : Attrs × Outcome :=
+  if r.condInstance && !instTruthy s then
+    (if r.guarded && (c.immutable || c.immFields.contains f) then (s, .err .valueErr)
+     else match applyNative kind m payload with
+      | .error e => (s, .err (MErr.ofNErr e))
+      | .ok _ => (s, .ok))
+  else callStep O c fields s f kind r m payload
+
+/-- a `take` that found no wrapper still occupies its position in the list of references (so that
+    the positions of later references do not depend on it); nothing can be called on it -/
+def deadRef (st : MState) (f : String) : MState :=
+  { st with refs := st.refs ++ [⟨f, "", .none, st.next⟩], next := st.next + 1 }
+
+def stepR (bound dh : Bool) (tbl : List MethodRec) (O : Oracles) (c : ClassOpts)
+    (fields : List (String × FieldDecl)) (st : MState) : ROp → MState × Outcome
+  | .plain op =>
+    let r := stepB bound dh tbl O c fields st.attrs op
+    let b := match r.2 with
+      | .ok => afterPlain bound tbl O c fields st op r.1
+      | .err _ => (st.refs, st.cur)
+    ({ st with attrs := r.1, refs := b.1, cur := b.2 }, r.2)
+  | .take f =>
+    match lookup f fields, lookup f st.attrs with
+    | some fd, some cur =>
+      (match wrapperKindAt O fd cur with
+        | some kind =>
+          (match lookup f st.cur with
+            | some o => ({ st with refs := st.refs ++ [⟨f, kind, cur, o⟩] }, .ok)
+            | none => ({ st with refs := st.refs ++ [⟨f, kind, cur, st.next⟩], cur := (f, st.next) :: st.cur,
+                                  next := st.next + 1 }, .ok))
+        | none => (deadRef st f, .err (.other "AttributeError")))
+    | _, _ => (deadRef st f, .err (.other "AttributeError"))
+  | .callRef i m =>
+    match st.refs[i]? with
+    | none => (st, .err (.other "AttributeError"))
+    | some w =>
+      match findRec tbl w.kind m.name with
+      | none => (st, .err (.other "AttributeError"))
+      | some r =>
+        let res := refCallStep O c fields st.attrs w.field w.kind r m w.payload
+        let b := match res.2, applyNative w.kind m w.payload with
+          | .ok, .ok new =>
+            (if !r.overridden || r.superCall then updObj st.refs w.obj new else st.refs,
+             if r.validated && !(r.condInstance && !instTruthy st.attrs) then unlive w.field st.cur else st.cur)
+          | _, _ => (st.refs, st.cur)
+        ({ st with attrs := res.1, refs := b.1, cur := b.2 }, res.2)
+
+  | .assignRef f i =>
+    match st.refs[i]? with
+    | none => (st, .err (.other "AttributeError"))
+    | some w =>
+      if w.kind == "" then (st, .err (.other "AttributeError")) else   -- a take that found no wrapper
+      -- an ordinary validated assignment of the reference's content (a new wrapper is built)
+      let r := setattrStep O c fields st.attrs f w.payload
+      let b := match r.2 with
+        | .ok => afterPlain bound tbl O c fields st (.setattr f w.payload) r.1
+        | .err _ => (st.refs, st.cur)
+      ({ st with attrs := r.1, refs := b.1, cur := b.2 }, r.2)
+
+def runR (bound dh : Bool) (tbl : List MethodRec) (O : Oracles) (c : ClassOpts)
+    (fields : List (String × FieldDecl)) : MState → List ROp → MState × List Outcome
+  | st, [] => (st, [])
+  | st, op :: rest =>
+    let r := stepR bound dh tbl O c fields st op
+    let t := runR bound dh tbl O c fields r.1 rest
+    (t.1, r.2 :: t.2)
+
 end Typedpy
